@@ -8,7 +8,7 @@ import itertools
 from typing import Any, Callable, Dict, Iterable, List, Optional, Tuple
 
 import automata.base.config as config
-from automata.base.exceptions import AutomatonException
+from automata.base.exceptions import AutomatonException, RejectionException
 from automata.fa.dfa import DFA
 from automata.fa.gnfa import GNFA
 from automata.fa.nfa import NFA
@@ -72,15 +72,89 @@ def lang_sig(m, alphabet, n=None) -> Tuple[bool, ...]:
     return tuple(m.accepts_input(w) for w in words_upto(al, n))
 
 
-def is_documented(op: str, e: BaseException) -> bool:
+# ------------------------------------------------------------------ documented exceptions
+# Which exception classes an operation is *documented* to raise on valid operands.  Source: the
+# "Raises" sections of the method docstrings of the code under test, read by an AST walk
+# (harness/extract_misc.py: `documented_raises`, `doc_closure` — a wrapper without such a section
+# documents what the methods it calls on self document, minus what it catches; a docstring
+# without a Raises section and without documented callees means "raises nothing").  Two classes
+# are documented by their own docstring in automata/base/exceptions.py rather than per method:
+#   RejectionException   "The input was rejected by the automaton"   — the read_input family of
+#                        every class (DTM.read_input_stepwise lacks the Raises section its
+#                        siblings DFA / NFA / DPDA / NPDA / NTM / MNTM have);
+#   SymbolMismatchError  "The input symbols between the given automata do not match" — binary
+#                        operations, and only when the two alphabets really differ.
+_DOC_TABLE = None
+# tighter than the derived table: `DFA.__iter__` guards its call of minimum_word_length() by
+# isempty(); its docstring ("Iterates through all words in the language") promises a total function
+DOC_OVERRIDE = {("DFA", "__iter__"): []}
+# validate() of a definition the constructor accepted raises nothing (that is what "accepted" means)
+DOC_OVERRIDE.update({(c, "validate"): [] for c in ("DFA", "NFA", "GNFA", "DPDA", "NPDA", "DTM", "NTM", "MNTM")})
+READ_FAMILY = ("read_input", "read_input_stepwise", "read_input_as_ntm")
+
+
+def doc_table():
+    global _DOC_TABLE
+    if _DOC_TABLE is None:
+        import ast
+        import os
+
+        import automata
+
+        from harness import extract_misc as X
+        root = os.path.dirname(os.path.dirname(os.path.abspath(automata.__file__)))
+
+        def parse(rel):
+            with open(os.path.join(root, rel), encoding="utf-8") as f:
+                return ast.parse(f.read(), rel)
+        _DOC_TABLE = X.documented_raises(parse)
+    return _DOC_TABLE
+
+
+def op_targets(op: str) -> List[Tuple[str, str]]:
+    """The (class, method) pairs a harness operation name exercises: "DFA.to_complete(trap)" →
+    DFA.to_complete; "GNFA.from_dfa.to_regex" → GNFA.from_dfa, GNFA.to_regex;
+    "DPDA.read_input/accepts_input/in" → read_input, accepts_input, __contains__."""
+    base = op.split("(")[0]
+    cls, rest = base.split(".", 1)
+    out = []
+    for seg in rest.split("/"):
+        for m in seg.split("."):
+            out.append((cls, "__contains__" if m == "in" else m))
+    return out
+
+
+def documented_classes(op: str) -> List[str]:
+    """Exception class names the documentation allows `op` to raise (by method docstrings)."""
+    from harness import extract_misc as X
+    out = set()
+    for cls, meth in op_targets(op):
+        if (cls, meth) in DOC_OVERRIDE:
+            out |= set(DOC_OVERRIDE[(cls, meth)])
+        else:
+            out |= set(X.doc_closure(doc_table(), cls, meth))
+    return sorted(out)
+
+
+def documented_reason(op: str, e: BaseException, same_alphabet: Optional[bool] = None) -> Optional[str]:
+    """Why the exception `e` raised by `op` on valid operands is documented — "docstring",
+    "exception-class docstring" — or None when it is not.  `same_alphabet`: for binary
+    operations, whether both operands have the same input symbols (None = unknown)."""
+    names = {c.__name__ for c in type(e).__mro__}
+    if names & set(documented_classes(op)):
+        return "docstring"
+    meths = {m for _, m in op_targets(op)}
+    if "RejectionException" in names and meths & set(READ_FAMILY) and not op.startswith("GNFA."):
+        return "exception-class docstring"
+    if "SymbolMismatchError" in names and same_alphabet is not True and \
+            any(op == n for n, _ in dfa_binary_ops() + nfa_binary_ops()):
+        return "exception-class docstring"
+    return None
+
+
+def is_documented(op: str, e: BaseException, same_alphabet: Optional[bool] = None) -> bool:
     """Exceptions an operation on valid operands is documented to raise."""
-    if isinstance(e, AutomatonException):
-        return True  # RejectionException, SymbolMismatchError, Empty/InfiniteLanguageException …
-    if isinstance(e, NotImplementedError) and op.startswith("GNFA."):
-        return True  # GNFA does not read input (documented dummy implementation)
-    if isinstance(e, ValueError) and op in ("DFA.random_word",):
-        return True  # "If this DFA does not accept any words of length k"
-    return False
+    return documented_reason(op, e, same_alphabet) is not None
 
 
 # ------------------------------------------------------------------ operation tables
@@ -214,8 +288,8 @@ def _trace(m, w, method="read_input_stepwise"):
             out.append(tuple(sorted(map(repr, c))))
         else:
             out.append(repr(c))
-    if exn is not None and not isinstance(exn, AutomatonException):
-        raise exn
+    if exn is not None and not isinstance(exn, RejectionException):
+        raise exn  # judged by the caller (only RejectionException is part of a normal run)
     return (tuple(out), type(exn).__name__ if exn is not None else None, finished)
 
 
@@ -226,7 +300,7 @@ def _verdicts(m, w):
         return ("unbounded",)
     try:
         r = repr(m.read_input(w))
-    except AutomatonException as e:
+    except RejectionException as e:
         r = type(e).__name__
     return (r if not r.startswith("{") else "set", m.accepts_input(w), w in m, 5 in m)
 
@@ -285,17 +359,38 @@ def result_summary(r) -> Any:
     return G.norm(r)
 
 
+def same_language(a, b, alphabet) -> bool:
+    """EXACT language comparison of two DFA / NFA objects: breadth-first search of the product of
+    the two machines stepped straight from their transition dicts (harness/langoracle.find_word —
+    complete, the product is finite, and independent of the library's algorithms); a
+    distinguishing word is re-confirmed through the real accepts_input.  Only when the product
+    exceeds 300 000 states: all words up to length 5 / 4 / 3 through the real accepts_input."""
+    from harness import langoracle
+    try:
+        w = langoracle.find_word([a, b], alphabet, lambda v: v[0] != v[1], limit=300_000)
+    except RuntimeError:
+        return lang_sig(a, alphabet) == lang_sig(b, alphabet)
+    if w is None:
+        return True
+    if bool(a.accepts_input(w)) != bool(b.accepts_input(w)):
+        return False
+    return lang_sig(a, alphabet) == lang_sig(b, alphabet)  # oracle and library disagree on w: sample instead
+
+
 def same_up_to_renaming(r1, r2) -> bool:
-    """Fallback when two automaton results are not literally equal: same class, same size,
-    same language on all short words (state names may legitimately depend on set order)."""
+    """Two automaton results that are not literally equal (state names may legitimately depend
+    on set iteration order): same class, same alphabet, same number of states and EXACTLY the
+    same language (`same_language`; GNFA: the two `to_regex()` outputs denote the same language)."""
     if type(r1) is not type(r2):
         return False
     if isinstance(r1, (DFA, NFA)):
         if len(r1.states) != len(r2.states) or r1.input_symbols != r2.input_symbols:
             return False
-        return lang_sig(r1, r1.input_symbols) == lang_sig(r2, r2.input_symbols)
+        return same_language(r1, r2, r1.input_symbols)
     if isinstance(r1, GNFA):
-        return len(r1.states) == len(r2.states)
+        if len(r1.states) != len(r2.states) or r1.input_symbols != r2.input_symbols:
+            return False
+        return regex_equiv(r1.to_regex(), r2.to_regex(), r1.input_symbols)
     return False
 
 
@@ -304,4 +399,4 @@ def regex_equiv(r1: str, r2: str, alphabet) -> bool:
         return True  # state elimination can print huge expressions; not compared (counted by the caller)
     a = NFA.from_regex(r1, input_symbols=set(alphabet))
     b = NFA.from_regex(r2, input_symbols=set(alphabet))
-    return lang_sig(a, alphabet) == lang_sig(b, alphabet)
+    return same_language(a, b, alphabet)
